@@ -84,12 +84,12 @@ var kindSubsets = map[string]struct {
 	missing []string
 	why     string
 }{
-	"manifests/parser.(*K8sObject).initDefaultNamespace":     {[]string{"Namespace", "AdminNetworkPolicy", "BaselineAdminNetworkPolicy"}, "cluster-scoped kinds have no namespace to default"},
-	"manifests/parser.FilterObjectsList":                      {[]string{"ReplicaSet", "Deployment", "StatefulSet", "DaemonSet", "ReplicationController", "Job", "CronJob"}, "the eval command deals with pods, not workloads"},
-	"cli.updatePolicyEngineObjectsFromDirPath":                {[]string{"ReplicaSet", "Deployment", "StatefulSet", "DaemonSet", "ReplicationController", "Job", "CronJob", "Service", "Route", "Ingress"}, "the eval command inserts namespaces, pods and policies only (FilterObjectsList)"},
-	"netpol/eval/internal/k8s.PodsFromWorkloadObject":          {[]string{"Pod", "Namespace", "NetworkPolicy", "AdminNetworkPolicy", "BaselineAdminNetworkPolicy", "Service", "Route", "Ingress"}, "workload kinds with a pod template only"},
+	"manifests/parser.(*K8sObject).initDefaultNamespace":                     {[]string{"Namespace", "AdminNetworkPolicy", "BaselineAdminNetworkPolicy"}, "cluster-scoped kinds have no namespace to default"},
+	"manifests/parser.FilterObjectsList":                                     {[]string{"ReplicaSet", "Deployment", "StatefulSet", "DaemonSet", "ReplicationController", "Job", "CronJob"}, "the eval command deals with pods, not workloads"},
+	"cli.updatePolicyEngineObjectsFromDirPath":                               {[]string{"ReplicaSet", "Deployment", "StatefulSet", "DaemonSet", "ReplicationController", "Job", "CronJob", "Service", "Route", "Ingress"}, "the eval command inserts namespaces, pods and policies only (FilterObjectsList)"},
+	"netpol/eval/internal/k8s.PodsFromWorkloadObject":                        {[]string{"Pod", "Namespace", "NetworkPolicy", "AdminNetworkPolicy", "BaselineAdminNetworkPolicy", "Service", "Route", "Ingress"}, "workload kinds with a pod template only"},
 	"netpol/connlist/internal/ingressanalyzer.NewIngressAnalyzerWithObjects": {[]string{"Pod", "Namespace", "NetworkPolicy", "AdminNetworkPolicy", "BaselineAdminNetworkPolicy", "ReplicaSet", "Deployment", "StatefulSet", "DaemonSet", "ReplicationController", "Job", "CronJob"}, "ingress analysis consumes Service, Route and Ingress only"},
-	"netpol/eval.splitPoliciesAndNamespacesAndOtherObjects":   {nil, "two-way split with a default branch"},
+	"netpol/eval.splitPoliciesAndNamespacesAndOtherObjects":                  {nil, "two-way split with a default branch"},
 }
 
 // KindTables is C13-b / C17-c.
